@@ -126,13 +126,21 @@ Print Assumptions C19_thrust_in_range_is_total_energy.
 
 (* ---- fuel flow: cruise correction only in cruise (all three engine types, every number domain) ---- *)
 Theorem C19_cruise_factor_only_in_cruise :
-  forall (N : Num) (E : engine) (P : params N) (pt : point N) (m : T N),
-    @fuel_flow N E P pt m =
+  forall (N : Num) (psec : bool) (E : engine) (P : params N) (pt : point N) (m : T N),
+    @fuel_flow N psec E P pt m =
       if t_cruise pt
-      then @mul N (@nominal_fuel_flow N E P (@point_thrust N E P pt m) (t_vtas pt)) (p_c_fcr P)
-      else @nominal_fuel_flow N E P (@point_thrust N E P pt m) (t_vtas pt).
+      then @mul N (@nominal_fuel_flow N psec E P (@point_thrust N E P pt m) (t_vtas pt)) (p_c_fcr P)
+      else @nominal_fuel_flow N psec E P (@point_thrust N E P pt m) (t_vtas pt).
 Proof. exact cruise_factor_only_in_cruise. Qed.
 Print Assumptions C19_cruise_factor_only_in_cruise.
+
+(* FC19b: the piston flow as coded before the repair is 60 times the per-second flow C_f1 / 60 *)
+Theorem C19_piston_flow_before_fix_is_60_times_per_second_flow :
+  forall (P : params RNum) (thr v : R),
+    @nominal_fuel_flow RNum true Piston P thr v = p_c_f1 P / 60 /\
+    @nominal_fuel_flow RNum false Piston P thr v = 60 * @nominal_fuel_flow RNum true Piston P thr v.
+Proof. exact piston_flow_per_second. Qed.
+Print Assumptions C19_piston_flow_before_fix_is_60_times_per_second_flow.
 
 (* ---- fuel-dependent initial mass ---- *)
 Theorem C19_initial_mass_le_mtow :
@@ -142,6 +150,16 @@ Theorem C19_initial_mass_le_mtow :
       hd 0 (@iterate_fd RNum sgr_of ds sh new_initial n est n_iter) <= mtow.
 Proof. exact iterate_fd_initial_le_mtow. Qed.
 Print Assumptions C19_initial_mass_le_mtow.
+
+(* n_iter = 0 performs no iteration: the result is the single update of the caller's estimate and starts at it
+   (so the MTOW clause, a statement about the ITERATION, has the hypothesis 0 < n_iter above) *)
+Theorem C19_no_iteration_returns_update_of_estimate :
+  forall (sgr_of : list R -> list R) (ds : list R) (new_initial : R -> R) sh n (est : R), (0 < n)%nat ->
+    @iterate_fd RNum sgr_of ds sh new_initial n est 0%nat
+      = @update_forward RNum (repeat est n) (sgr_of (repeat est n)) ds /\
+    hd 0 (@iterate_fd RNum sgr_of ds sh new_initial n est 0%nat) = est.
+Proof. exact iterate_fd_zero_iterations. Qed.
+Print Assumptions C19_no_iteration_returns_update_of_estimate.
 
 Theorem C19_new_initial_mass_rules_are_capped :
   forall mtow oew mpl lf r fb : R,
